@@ -717,11 +717,11 @@ def g_groups(F, rng, tier):
         out.append({"kind": "group", "fmt": F.name, "tag": tag,
                     "members": [{"int": i, "frac": f, "exp": e} for (i, f, e) in mem]})
 
-    for _ in range(40 if q else 600):
+    for _ in range(40 if q else 300):
         nd = rng.choice([1, 2, 5, 15, 16, 17, 18, 19, 20, 21, 25, 40])
         ds = str(rng.randrange(10 ** (nd - 1), 10 ** nd))
         group(ds, rng.randrange(-40, 40), "C10:random")
-    fields = rng.sample(range(0, F.emaxfield), 25 if q else 250) + [0, F.emaxfield - 1]
+    fields = rng.sample(range(0, F.emaxfield), 25 if q else 120) + [0, F.emaxfield - 1]
     for ef in fields:
         bits = (ef << F.mbits) | rng.choice(sig_patterns(F, rng, 2))
         M, k = F.midpoint(bits)
@@ -737,11 +737,11 @@ def g_groups(F, rng, tier):
             group(ds2, e2, "C10:float")
     # short significands that sit next to a midpoint and start low in their decade ("10..."): every digit count 14..19,
     # both parities, so that appending a zero changes the parity of the significand's digit count
-    for bits in low_decade_midpoints(F, rng, 12 if q else 200, 1 if q else 3):
+    for bits in low_decade_midpoints(F, rng, 12 if q else 60, 1):
         M, k = F.midpoint(bits)
         ds, e10 = exact_decimal(M, k)
         n = len(ds)
-        for t in ((16, 17, 18) if q else (10, 12, 14, 15, 16, 17, 18, 19)):
+        for t in ((16, 17, 18) if q else (12, 14, 16, 17, 18, 19)):
             if n > t:
                 pre = ds[:t]
                 group(pre, e10 + n - t, "C10:low%d" % t)
